@@ -336,6 +336,15 @@ class Check:
             self.broke("proof:" + self.id, b)
         if res.get("axioms"):
             self.notes.append("axioms reported by Print Assumptions: " + " | ".join(res["axioms"])[:2000])
+        if self.tier == "thorough" and not res["broken"]:
+            # independent re-check of the compiled cone of the property's theorems
+            rc, out, err = run(["timeout", "7000", "coqchk", "-silent", "-o", "-Q", "theories", "PQ", "-Q", "gen", "PQgen", "-Q", "props", "PQprops",
+                                "PQprops." + self.id], cwd=COQ, timeout=7200)
+            txt = (out + err)
+            m = re.search(r"\* Axioms:(.*?)\n\s*\n", txt, re.S)
+            self.coverage["coqchk"] = {"exit": rc, "axioms": (m.group(1).strip() if m else "?")[:1500]}
+            if rc != 0:
+                self.broke("coqchk:" + self.id, "coqchk rejects the compiled development: " + txt[-600:])
         return res
 
     def finish(self):
